@@ -26,9 +26,9 @@ type rec struct {
 // scheduling points, the completion flag written last.
 func (r *rec) action(i int) (int, int, int) {
 	r.invoked[i]++
-	vrt.Yield("action.step1", uintptr(unsafe.Pointer(&r.partial)), true)
+	vrt.Yield("action.step1", unsafe.Pointer(&r.partial), true)
 	r.partial = i
-	vrt.Yield("action.step2", uintptr(unsafe.Pointer(&r.partial)), true)
+	vrt.Yield("action.step2", unsafe.Pointer(&r.partial), true)
 	r.completed = true
 	return 100 + i, 200 + i, 300 + i
 }
